@@ -311,6 +311,8 @@ def model_tokens(world, hop):
         return ["L.%d.0" % s, "L.%d.0" % i, "L.%d.1" % s]
     if t == "Z":
         return ["L.%d.1" % s]
+    if t == "M":
+        return ["L.%d.0" % s]      # a full load of the model; the changes made to that instance are nobody else's business
     if t == "E":
         return ["E.%d.%d.%s" % (hop["d"], s, "-" if hop["c"] is None else hop["c"])]
     if t == "K":
@@ -334,7 +336,7 @@ def model_tokens(world, hop):
 
 
 def n_outcomes(hop):
-    return {"A": 3, "Z": 1}.get(hop["t"], 2 * hop.get("n", 0) if hop["t"] == "R" else 0)
+    return {"A": 3, "Z": 1, "M": 1}.get(hop["t"], 2 * hop.get("n", 0) if hop["t"] == "R" else 0)
 
 
 def initial_files(world):
@@ -378,6 +380,10 @@ def fixed_histories():
         hs.append(("cut-home-%d" % cls, [{"t": "W", "d": 1, "b": False}, A, N,
                                          {"t": "C", "loc": HOME_LOC, "stem": "arch", "c": 0, "cls": cls}, A, N, A]))
         hs.append(("cut-isa-%d" % cls, [A, N, {"t": "C", "loc": 3, "stem": "isa", "c": "isa", "cls": cls}, A, N, A]))
+    # in-process cache: an instance changed through the public API must not be what later loads are served
+    M = {"t": "M"}
+    hs.append(("mutated-instance", [A, M, A, M, {"t": "Z"}, A, N, A]))
+    hs.append(("mutated-instance-cold", [M, A, N, A]))
     # N processes cold-starting simultaneously
     for n in (2, 3, 4):
         hs.append(("race-%d" % n, [{"t": "R", "n": n}, A, N, A]))
@@ -392,8 +398,10 @@ def random_history(rng, length):
     ro = set()
     for _ in range(length):
         r = rng.random()
-        if r < 0.30:
+        if r < 0.28:
             hops.append({"t": "A"})
+        elif r < 0.31:
+            hops.append({"t": "M"})
         elif r < 0.36:
             hops.append({"t": "Z"})
         elif r < 0.46:
@@ -524,6 +532,8 @@ def execute(shared, world, hops):
                 obs.append(r)
             elif t == "Z":
                 obs.append(worker().ask({"op": "lazy", "arch": world.arch}))
+            elif t == "M":
+                obs.append(worker().ask({"op": "mutate", "arch": world.arch, "kernels": world.kernels}))
             elif t == "N":
                 end_process()
             elif t == "E":
